@@ -327,3 +327,17 @@ brk('C04', P, "        self.center = exp(1j*self.phi)*cp + (self.start + self.en
 brk('C15', P, "    dseg = seg.derivative(t)\n\n    # Note: dseg might be numpy value", "    if t == 0 and np.isclose(seg.bpoints()[1], seg.bpoints()[0]):\n        return (seg.bpoints()[2] - seg.bpoints()[0])/abs(seg.bpoints()[2] - seg.bpoints()[0])\n    dseg = seg.derivative(t)\n\n    # Note: dseg might be numpy value", 'start tangent skips a control point that is merely near the start')
 brk('C03', P, "        return self.poly()(ts)\n\n    def length(self, t0=0, t1=1, error=None, min_depth=None):\n        if t0 == 1 and t1 == 0:\n            if self._length_info['bpoints'] == self.bpoints():", "        ts = np.asarray(ts)\n        return np.where(ts >= 1, self.end, self.poly()(ts))\n\n    def length(self, t0=0, t1=1, error=None, min_depth=None):\n        if t0 == 1 and t1 == 0:\n            if self._length_info['bpoints'] == self.bpoints():", 'QuadraticBezier.points clamps parameters beyond 1 to the end point')
 brk('C07', P, "        return inv_arclength(self, s, s_tol=s_tol, maxits=maxits, error=error,\n                             min_depth=min_depth)\n\n    def bpoints(self):\n        \"\"\"returns the Bezier control points of the segment.\"\"\"\n        return self.start, self.control, self.end", "        if (self.control - self.start).real*(self.end - self.start).imag == (self.control - self.start).imag*(self.end - self.start).real and self.end != self.start:\n            full = self.length(error=error, min_depth=min_depth)\n            if not 0 <= s <= full:\n                raise ValueError('s is not in interval [0, curve.length()].')\n            return s/full\n        return inv_arclength(self, s, s_tol=s_tol, maxits=maxits, error=error,\n                             min_depth=min_depth)\n\n    def bpoints(self):\n        \"\"\"returns the Bezier control points of the segment.\"\"\"\n        return self.start, self.control, self.end", 'straight quadratic treated as uniformly parameterised')
+
+# ---------------------------------------------------------------- rounds 6 / 7
+brk('C05', P, "    return Path(*[seg for path in list_of_paths for seg in path])", "    segs = [seg for path in list_of_paths for seg in path]\n    for a, b in zip(segs, segs[1:]):\n        if a.end != b.start and np.isclose(a.end, b.start):\n            b.start = a.end\n    return Path(*segs)", 'concatpaths heals joints that are merely close')
+ben('C05', P, "    return Path(*[seg for path in list_of_paths for seg in path])", "    segs = []\n    for path in list_of_paths:\n        segs.extend(path)\n    return Path(*segs)", 'concatpaths with an explicit loop')
+brk('C17', 'svg_io_sax.py', "        flat = []\n        for values in self.tree:\n            pathd = values['d']\n            matrix = values['matrix']\n            parsed_path = parse_path(pathd)\n            if matrix is not None:\n                parsed_path = transform(parsed_path, matrix)\n            flat.append(parsed_path)\n        return flat", "        flat = []\n        done = {}\n        for values in self.tree:\n            pathd = values['d']\n            matrix = values['matrix']\n            key = (pathd, values.get('transform'))\n            if key not in done:\n                parsed_path = parse_path(pathd)\n                if matrix is not None:\n                    parsed_path = transform(parsed_path, matrix)\n                done[key] = parsed_path\n            flat.append(done[key])\n        return flat", 'flatten_all_paths reuses a flattened path for equal (d, transform text)')
+brk('C18', 'document.py', "            if prettify:\n                output_svg.write(self.pretty(**kwargs))\n            else:\n                output_svg.write(repr(self))", "            if prettify:\n                output_svg.write(self.pretty(**kwargs).replace('svg:', ''))\n            else:\n                output_svg.write(repr(self).replace('svg:', ''))", 'Document.save strips the svg: prefix by a text replace')
+ben('C18', 'document.py', "            if prettify:\n                output_svg.write(self.pretty(**kwargs))\n            else:\n                output_svg.write(repr(self))", "            text = self.pretty(**kwargs) if prettify else repr(self)\n            output_svg.write(text)", 'Document.save through a local')
+brk('C09', P, "        new_cub = CubicBezier(self.end, self.control2, self.control1,\n                              self.start)", "        new_cub = CubicBezier(self.end, self.control2, self.control1,\n                              self.start) if not self._length_info['length'] else CubicBezier(self.end, self.control1, self.control2, self.start)", 'a measured cubic is reversed with its inner control points in the old order')
+brk('C11', B, "def boxes_intersect(box1, box2):", "def boxes_intersect(box1, box2):\n    if box1[2] == box1[3] and box2[0] == box2[1]:\n        return box1[0] <= box2[0] <= box1[1] and box2[2] <= box1[2] <= box2[3]", 'flat boxes that cross count as overlapping (area-based termination then reports mid parameters at once)')
+brk('C04', P, "        for s in range(len(self)-1, -1, -1):\n            segment = self[s]\n            if not isinstance(segment, Arc):\n                continue\n            arc_required = int(ceil(abs(segment.delta) / sweep_limit))\n            self[s:s+1] = list(segment.as_cubic_curves(arc_required))", "        for s, segment in enumerate(list(self)):\n            if not isinstance(segment, Arc):\n                continue\n            arc_required = int(ceil(abs(segment.delta) / sweep_limit))\n            self[s:s+1] = list(segment.as_cubic_curves(arc_required))", 'arcs replaced front to back with the indices of a snapshot')
+ben('C04', P, "        for s in range(len(self)-1, -1, -1):\n            segment = self[s]\n            if not isinstance(segment, Arc):\n                continue\n            arc_required = int(ceil(abs(segment.delta) / sweep_limit))\n            self[s:s+1] = list(segment.as_cubic_curves(arc_required))", "        for s in reversed(range(len(self))):\n            if isinstance(self[s], Arc):\n                pieces = int(ceil(abs(self[s].delta) / sweep_limit))\n                self[s:s+1] = list(self[s].as_cubic_curves(pieces))", 'arc replacement loop restyled')
+brk('C16', P, "            new_cub._length_info = dict(self._length_info)\n            new_cub._length_info['bpoints'] = (\n                self.end, self.control2, self.control1, self.start)", "            new_cub._length_info = dict(self._length_info, error=LENGTH_ERROR, min_depth=LENGTH_MIN_DEPTH)\n            new_cub._length_info['bpoints'] = (\n                self.end, self.control2, self.control1, self.start)", 'reversed copy claims default tolerances for a loosely measured length')
+brk('C16', P, "        return self.bpoints()[item]\n\n    def __len__(self):\n        return 4", "        return (self._length_info['bpoints'] or self.bpoints())[item]\n\n    def __len__(self):\n        return 4", 'CubicBezier indexing reads the control points remembered by length()')
+brk('C12', B, "    return max(0, min(b, d) - max(a, c))", "    w = min(b, d) - max(a, c)\n    return 0 if w <= 1e-12*max(abs(a), abs(b), abs(c), abs(d)) else w", 'interval overlap with a tolerance relative to the coordinates')
